@@ -155,6 +155,26 @@ func c17CheckRequest(c *core.Ctx, raw, src string) {
 
 		return
 	}
+	if src != "" && c.Rng.Intn(4) == 0 {
+		// Another request comes first (a page load: a document request for a
+		// bare origin that is textually close to the source of the request
+		// under test - the same origin, the host without its last label or
+		// without its last character): every request is parsed on its own.
+		if i := strings.Index(src, "://"); i > 0 && wantSrcHost != "" {
+			origin := src[:i+3] + wantSrcHost
+			prime := origin
+			switch c.Rng.Intn(3) {
+			case 0:
+				if j := strings.LastIndexByte(wantSrcHost, '.'); j > 0 {
+					prime = src[:i+3] + wantSrcHost[:j]
+				}
+			case 1:
+				prime = origin[:len(origin)-1]
+			}
+			c.Guard("NewRequest(earlier document request)", nil, c17Witness{URL: prime}, func() { _ = rules.NewRequest(prime, "", rules.TypeDocument) })
+			c.Event("requests_preceded_by_a_document_request", 1)
+		}
+	}
 	var r *rules.Request
 	if c.Guard("NewRequest", nil, c17Witness{URL: raw, Source: src}, func() { r = rules.NewRequest(raw, src, rules.TypeScript) }) {
 		return
